@@ -15,6 +15,12 @@ for d in sorted(glob.glob('/verif/seeded/*/')):
         verdict = {'1': 'caught', '0': 'MISSED', '2': 'inconclusive'}[h.group(3)]
         det.append('%s %s: %s%s' % (h.group(1), h.group(2), verdict, (' by ' + ', '.join(x.strip() for x in hs[:3])) if hs and verdict == 'caught' else ''))
     rows.append('| %s | %s | %s | %s |' % (name, m['property'], m['needs'].replace('|', '/'), '; '.join(det) or 'not run yet'))
-print('| seed | breaks | needs, in order to manifest | checks run against it |')
-print('|---|---|---|---|')
-print('\n'.join(rows))
+table = '| seed | breaks | needs, in order to manifest | checks run against it |\n|---|---|---|---|\n' + '\n'.join(rows)
+import sys
+if '--inject' in sys.argv:
+    d = open('/verif/DESIGN.md').read()
+    a = d.index('<!-- seeds:begin -->') + len('<!-- seeds:begin -->')
+    b = d.index('<!-- seeds:end -->')
+    open('/verif/DESIGN.md', 'w').write(d[:a] + '\n' + table + '\n' + d[b:])
+else:
+    print(table)
